@@ -39,6 +39,8 @@ type normReport struct {
 	Failed    []string // why normalisation was abandoned or partial
 	Overlay   map[string][]byte
 	Renamed   []string // caller variables renamed because they shadowed a type name the callee needs
+	FuncRenames []string // functions analysed under the name they have in the reference tree (rename.go)
+	HandLits  int      // hand-written immediately-invoked literals turned into blocks
 	Literal   int
 	Delit     int // function literals turned back into blocks
 	Rounds    int
@@ -93,15 +95,6 @@ func normalizeNewHelpers(repo string, first []*packages.Package, ref map[string]
 		}
 		return out
 	}
-	nf := newFuncs(first)
-	if len(nf) == 0 {
-		return rep
-	}
-	for k := range nf {
-		rep.NewFuncs = append(rep.NewFuncs, k)
-	}
-	sort.Strings(rep.NewFuncs)
-
 	content := func(name string) []byte {
 		if b, ok := rep.Overlay[name]; ok {
 			return b
@@ -110,6 +103,31 @@ func normalizeNewHelpers(repo string, first []*packages.Package, ref map[string]
 		return b
 	}
 	pkgs := first
+	// reference functions that live on under a new name get their reference name back (rename.go)
+	if pairs := matchRenamed(pkgs, ref); len(pairs) > 0 {
+		if files := applyRenames(pkgs, pairs, content); len(files) > 0 {
+			for name, b := range files {
+				rep.Overlay[name] = b
+			}
+			p2, err := loadPkgs(repo, packages.LoadSyntax, rep.Overlay)
+			if err != nil || hasErrors(p2) != "" {
+				rep.Failed = append(rep.Failed, "restoring reference names of renamed functions broke the build ("+firstLine(hasErrors(p2))+"): names kept")
+				rep.Overlay = map[string][]byte{}
+			} else {
+				pkgs = p2
+				for _, pr := range pairs {
+					rep.FuncRenames = append(rep.FuncRenames, pr.from+" analysed as "+pr.to)
+				}
+				sort.Strings(rep.FuncRenames)
+			}
+		}
+	}
+	nf := newFuncs(pkgs)
+	for k := range nf {
+		rep.NewFuncs = append(rep.NewFuncs, k)
+	}
+	sort.Strings(rep.NewFuncs)
+
 	renamedOnce := map[string]bool{}
 	const maxRounds = 12
 	for round := 0; round < maxRounds; round++ {
@@ -223,21 +241,36 @@ func normalizeNewHelpers(repo string, first []*packages.Package, ref map[string]
 		}
 	}
 	// function literals the inliner had to produce are turned back into blocks where that is safe (delit.go)
-	if rep.Literal > 0 {
+	// … and so are hand-written ones, except those the reference tree has itself (keepLiteral in delit.go)
+	{
+		setRefLoopVars(ref)
 		saved := map[string][]byte{}
 		n := 0
-		for name, src := range rep.Overlay {
-			if out, k := deliteralize(name, src); k > 0 {
-				saved[name] = src
-				rep.Overlay[name] = out
-				n += k
+		for _, p := range pkgs {
+			if !isModPkg(p.PkgPath) {
+				continue
+			}
+			for _, name := range p.CompiledGoFiles {
+				src := content(name)
+				if !bytes.Contains(src, []byte("}()")) && !bytes.Contains(src, []byte("++ {")) && !bytes.Contains(src, []byte("min(")) && !bytes.Contains(src, []byte("max(")) {
+					continue
+				}
+				if out, k := deliteralize(name, src); k > 0 {
+					saved[name] = rep.Overlay[name]
+					rep.Overlay[name] = out
+					n += k
+				}
 			}
 		}
 		if n > 0 {
 			p2, err := loadPkgs(repo, packages.LoadSyntax, rep.Overlay)
 			if err != nil || hasErrors(p2) != "" {
 				for name, b := range saved {
-					rep.Overlay[name] = b
+					if b == nil {
+						delete(rep.Overlay, name)
+					} else {
+						rep.Overlay[name] = b
+					}
 				}
 				rep.Failed = append(rep.Failed, "turning inlined function literals into blocks broke the build ("+firstLine(hasErrors(p2))+"): literals kept")
 			} else {
